@@ -91,6 +91,9 @@ spec fn stop(lines: Seq<LineType>, w: nat, h: nat, k: int) -> int decreases line
 proof fn lemma_hts_mono(lines: Seq<LineType>, w: nat, a: int, b: int)
     requires a <= b ensures hts(lines, w, a) <= hts(lines, w, b) decreases b - a
 { if a < b { lemma_hts_mono(lines, w, a, b - 1); } }
+proof fn lemma_hts_at_least_len(lines: Seq<LineType>, w: nat, k: int)
+    requires 0 <= k ensures hts(lines, w, k) >= k decreases k
+{ if k > 0 { lemma_hts_at_least_len(lines, w, k - 1); } }
 proof fn lemma_rh_le_hts(lines: Seq<LineType>, w: nat, k: int)
     ensures rh(lines, w, k) <= hts(lines, w, k) decreases k
 { if k > 0 { lemma_rh_le_hts(lines, w, k - 1); } }
@@ -200,6 +203,110 @@ proof fn lemma_row_after_write(rr: int, w: nat, c: nat, row: int, col: nat)
 }
 // top-left cell of the frame that was painted last time: n rows ending at the cursor row
 spec fn frame_start(t: GTerm, n: int) -> int { if n >= 1 { (t.row - (n - 1)) * t.w } else { t.lin() } }
+
+// ---- Bottom alignment: the rows the bars no longer use stay blank BETWEEN the text lines and the bars
+// number of leading lines that are not bars (printed text, painted above the managed region)
+spec fn tcount(lines: Seq<LineType>, k: int) -> int decreases lines.len() - k {
+    if k < 0 || k >= lines.len() || is_bar(lines[k]) { k } else { tcount(lines, k + 1) }
+}
+spec fn tc(lines: Seq<LineType>) -> int { tcount(lines, 0) }
+spec fn bar_part(lines: Seq<LineType>) -> Seq<LineType> { lines.subrange(tc(lines), lines.len() as int) }
+spec fn pad_of(lines: Seq<LineType>, a: MultiProgressAlignment, w: nat, n: int) -> nat {
+    let fh = hts(bar_part(lines), w, bar_part(lines).len() as int);
+    if a is Bottom && fh < n { (n - fh) as nat } else { 0 }
+}
+// what is painted: text lines, padding rows, bar lines
+spec fn vlines(lines: Seq<LineType>, pad: nat) -> Seq<LineType> {
+    lines.subrange(0, tc(lines)) + Seq::new(pad, |i: int| LineType::Empty) + bar_part(lines)
+}
+spec fn vl_of(ds: DrawState, t: GTerm, n: int) -> Seq<LineType> { vlines(ds.lines@, pad_of(ds.lines@, ds.alignment, t.w, n)) }
+// every line after the first bar is a bar (frames are built as text lines followed by bar lines)
+spec fn text_first(lines: Seq<LineType>) -> bool { forall|i: int| tc(lines) <= i < lines.len() ==> is_bar(#[trigger] lines[i]) }
+proof fn lemma_tcount(lines: Seq<LineType>, k: int)
+    requires 0 <= k <= lines.len()
+    ensures k <= tcount(lines, k) <= lines.len(), forall|i: int| k <= i < tcount(lines, k) ==> !is_bar(#[trigger] lines[i]),
+            tcount(lines, k) < lines.len() ==> is_bar(lines[tcount(lines, k)])
+    decreases lines.len() - k
+{ if k < lines.len() && !is_bar(lines[k]) { lemma_tcount(lines, k + 1); } }
+proof fn lemma_hts_split(lines: Seq<LineType>, w: nat, a: int, k: int)
+    requires 0 <= a, 0 <= k, a + k <= lines.len()
+    ensures hts(lines, w, a + k) == hts(lines, w, a) + hts(lines.subrange(a, lines.len() as int), w, k)
+    decreases k
+{
+    if k > 0 {
+        lemma_hts_split(lines, w, a, k - 1);
+        assert(lines.subrange(a, lines.len() as int)[k - 1] == lines[a + k - 1]);
+    } else { assert(hts(lines.subrange(a, lines.len() as int), w, 0) == 0); }
+}
+proof fn lemma_hts_rh_prefix(a: Seq<LineType>, b: Seq<LineType>, w: nat, k: int)
+    requires 0 <= k <= a.len(), k <= b.len(), forall|i: int| 0 <= i < k ==> a[i] == b[i]
+    ensures hts(a, w, k) == hts(b, w, k), rh(a, w, k) == rh(b, w, k)
+    decreases k
+{ if k > 0 { lemma_hts_rh_prefix(a, b, w, k - 1); } }
+// without padding the painted sequence is the frame itself
+proof fn lemma_vlines_nopad(lines: Seq<LineType>)
+    ensures vlines(lines, 0) =~= lines
+{ lemma_tcount(lines, 0); }
+proof fn lemma_vlines_ok(lines: Seq<LineType>, pad: nat)
+    requires lines_ok(lines)
+    ensures lines_ok(vlines(lines, pad)), vlines(lines, pad).len() == lines.len() + pad
+{
+    lemma_tcount(lines, 0);
+    let v = vlines(lines, pad);
+    lemma_not_cr(0);
+    axiom_cols_empty();
+    assert forall|i: int| 0 <= i < v.len() implies cols(line_str(#[trigger] v[i])) <= 0xFFFF_FFFF && !is_cr(line_str(v[i])) by {
+        let t = tc(lines);
+        if i < t { assert(v[i] == lines[i]); } else if i < t + pad { assert(v[i] == LineType::Empty); } else { assert(v[i] == lines[i - pad]); }
+    }
+}
+// heights of the painted sequence: text, then `pad` one-row blanks, then the bars
+proof fn lemma_vlines_hts(lines: Seq<LineType>, pad: nat, w: nat)
+    requires w >= 1
+    ensures hts(vlines(lines, pad), w, tc(lines)) == hts(lines, w, tc(lines)),
+            hts(vlines(lines, pad), w, tc(lines) + pad) == hts(lines, w, tc(lines)) + pad,
+            hts(vlines(lines, pad), w, (lines.len() + pad) as int) == hts(lines, w, lines.len() as int) + pad,
+            rh(vlines(lines, pad), w, tc(lines) + pad) == 0
+{
+    lemma_tcount(lines, 0);
+    let v = vlines(lines, pad);
+    let t = tc(lines);
+    lemma_hts_rh_prefix(v, lines, w, t);
+    lemma_pad_rows(v, w, t, pad as int);
+    lemma_hts_split(v, w, t + pad, lines.len() - t);
+    lemma_hts_split(lines, w, t, lines.len() - t);
+    assert(v.subrange(t + pad, v.len() as int) =~= lines.subrange(t, lines.len() as int));
+    lemma_rh_text(v, w, t + pad);
+}
+proof fn lemma_pad_rows(v: Seq<LineType>, w: nat, t: int, k: int)
+    requires w >= 1, 0 <= t, 0 <= k, t + k <= v.len(), forall|i: int| t <= i < t + k ==> v[i] == LineType::Empty
+    ensures hts(v, w, t + k) == hts(v, w, t) + k
+    decreases k
+{
+    if k > 0 {
+        lemma_pad_rows(v, w, t, k - 1);
+        axiom_cols_empty();
+        assert(line_str(v[t + k - 1]) == Seq::<char>::empty());
+        assert(ceil_div(0, w) == 0) by (nonlinear_arith) requires w >= 1, ceil_div(0, w) == ((0 + w - 1) / (w as int)) as nat;
+        assert(height_of(v[t + k - 1], w) == 1);
+    }
+}
+proof fn lemma_rh_text(v: Seq<LineType>, w: nat, k: int)
+    requires 0 <= k <= v.len(), forall|i: int| 0 <= i < k ==> !is_bar(#[trigger] v[i])
+    ensures rh(v, w, k) == 0
+    decreases k
+{ if k > 0 { lemma_rh_text(v, w, k - 1); } }
+proof fn lemma_rh_le_from(v: Seq<LineType>, w: nat, a: int, k: int)
+    requires 0 <= a <= k
+    ensures rh(v, w, k) - rh(v, w, a) <= hts(v, w, k) - hts(v, w, a)
+    decreases k - a
+{ if k > a { lemma_rh_le_from(v, w, a, k - 1); } }
+// once only bars follow, rows of bars and rows of lines grow together
+proof fn lemma_rh_bars(v: Seq<LineType>, w: nat, a: int, k: int)
+    requires 0 <= a <= k <= v.len(), forall|i: int| a <= i < k ==> is_bar(#[trigger] v[i])
+    ensures rh(v, w, k) - rh(v, w, a) == hts(v, w, k) - hts(v, w, a)
+    decreases k - a
+{ if k > a { lemma_rh_bars(v, w, a, k - 1); } }
 """
 
 WRAPPED_HEIGHT = dict(file="src/draw_target.rs", container="LineType", name="wrapped_height", ret="r",
@@ -232,11 +339,44 @@ proof fn lemma_ceil_div(c: nat, w: nat)
 """
 
 DRAW_RW = [
+    # R3c: `.iter().take_while(|l| !P(l)).count()` is the index of the first element satisfying P (verified helper loop)
+    Rw("R3c", r"self\s*\.lines\s*\.iter\(\)\s*\.take_while\(\|line\| !matches!\(line, LineType::Bar\(_\)\)\)\s*\.count\(\)", "leading_text_count(&self.lines)"),
+    # R10: DrawState::visual_line_count(range, w) is `visual_line_count(&self.lines[range], w)` (its body); the sub-slice is vstd's slice_subrange
+    Rw("R10", r"self\.visual_line_count\(text_count\.\., term_width\)", "visual_line_count(vstd::slice::slice_subrange(self.lines.as_slice(), text_count, self.lines.len()), term_width)"),
+    Rw("R5", r"vec!\[LineType::Empty; shift\.as_usize\(\)\]", "padding_lines(shift.as_usize())"),
+    Rw("R5", r"self\.lines\.split_at\(text_count\)", "(vstd::slice::slice_subrange(self.lines.as_slice(), 0, text_count), vstd::slice::slice_subrange(self.lines.as_slice(), text_count, self.lines.len()))"),
+    # R3d: a chain of three slice iterators visits the concatenation of the three sequences (ASSUMED helper chain3)
+    Rw("R3d", r"for \(idx, line\) in text\.iter\(\)\.chain\(&padding\)\.chain\(bars\)\.enumerate\(\) \{", "let __vl = chain3(text, &padding, bars); for (idx, &line) in __vl.iter().enumerate() {"),
     RwFn("R3", r3_index_loops, count=1),
-    Rw("R10", r"self\.visual_line_count\(\.\., term_width\)", "visual_line_count(&self.lines, term_width)"),
     Rw("R5", r"&\" \"\.repeat\(last_line_filler\)", "repeat_space(last_line_filler).as_str()"),
-    Rw("R3", r"for _ in 0\.\.shift\.as_usize\(\)", "for _j in 0..shift.as_usize()"),
 ]
+
+HELPERS = r"""
+// R3c: `lines.iter().take_while(|line| !matches!(line, LineType::Bar(_))).count()`
+fn leading_text_count(lines: &Vec<LineType>) -> (r: usize)
+    ensures r as int == tc(lines@), r <= lines.len()
+{
+    let mut k: usize = 0;
+    proof { lemma_tcount(lines@, 0); }
+    while k < lines.len() && !matches!(lines[k], LineType::Bar(_))
+        invariant k <= lines.len(), tcount(lines@, k as int) == tc(lines@)
+        decreases lines.len() - k
+    {
+        proof { lemma_tcount(lines@, k as int + 1); }
+        k += 1;
+    }
+    proof { lemma_tcount(lines@, k as int); }
+    k
+}
+// R5 (ASSUMED): `vec![LineType::Empty; n]`
+#[verifier::external_body]
+fn padding_lines(n: usize) -> (r: Vec<LineType>) ensures r@ == Seq::new(n as nat, |i: int| LineType::Empty) { unimplemented!() }
+// R3d (ASSUMED): `a.iter().chain(b).chain(c)` yields the elements of a, then b, then c
+#[verifier::external_body]
+fn chain3<'a>(a: &'a [LineType], b: &'a Vec<LineType>, c: &'a [LineType]) -> (r: Vec<&'a LineType>)
+    ensures r@.len() == a@.len() + b@.len() + c@.len(), forall|i: int| 0 <= i < r@.len() ==> *(#[trigger] r@[i]) == (a@ + b@ + c@)[i]
+{ a.iter().chain(b).chain(c).collect() }
+"""
 
 INV_COMMON = [
     "term@.wf()", "term@.same_geom(t0)", "term@.flushed == t0.flushed", "term@.errs == t0.errs", "t0.wf()", "t0 == old(term)@",
@@ -249,7 +389,7 @@ UNIT = Unit(
     name="draw_to_term",
     properties=["C01", "C02", "C03", "C18", "C19"],
     prelude=["gterm", "realf"],
-    rlimit=60,
+    rlimit=150,
     trusted=[
         "the ghost terminal (prelude/gterm.rs) is the ASSUMED contract of the TermLike dependency; R10: every terminal type is this one model, R2: its &self methods take &mut",
         "LineType::wrapped_height stubbed with r == max(1, ceil(cols/width)) (float code: bounded Kani stand-in kani/draw_target.rs)",
@@ -276,6 +416,7 @@ UNIT = Unit(
            ensures=[("def", "r.0 as int == if self.0 >= other.0 { self.0 - other.0 } else { 0 }")]),
         Fn("src/draw_target.rs", "VisualLines", "as_usize", ret="r", ensures=[("def", "r == self.0")]),
         Raw(CEIL_LEMMA),
+        Raw(HELPERS),
         Fn(**WRAPPED_HEIGHT),
         Fn("src/draw_target.rs", "LineType", "console_width", ret="r",
            rewrites=[Rw("R5", r"console::measure_text_width", "measure_text_width")],
@@ -284,7 +425,6 @@ UNIT = Unit(
            ensures=[("def", "r@ == line_str(*self)")],
            proofs=[(r"match self", "before", '        proof { reveal_strlit(""); }')]),
         Fn("src/draw_target.rs", None, "visual_line_count", ret="r",
-           sig_rewrites=[Rw("R10", r"&\[LineType\]", "&Vec<LineType>")],
            rewrites=[RwFn("R3b", r3_fold, count=1)],
            requires=[("width", "width >= 1"), ("no-overflow", "hts(lines@, width as nat, lines.len() as int) <= usize::MAX")],
            ensures=[("C19-visual-line-count", "r.0 as nat == hts(lines@, width as nat, lines.len() as int)")],
@@ -326,6 +466,15 @@ UNIT = Unit(
                 "res.is_ok() && old(self).alignment is Top ==> final(bar_count).0 as nat == rh(old(self).lines@, old(term)@.w, stop(old(self).lines@, old(term)@.w, old(term)@.h, 0))"),
                ("rows-bounded", "res.is_ok() ==> final(bar_count).0 <= hts(old(self).lines@, old(term)@.w, old(self).lines@.len() as int) + old(bar_count).0"),
                ("C19-never-taller-than-terminal", "res.is_ok() && old(self).alignment is Top ==> final(bar_count).0 as nat <= old(term)@.h"),
+               # any alignment: what is painted is text lines, padding rows (Bottom alignment keeps the region height), bar lines
+               ("C19-C02-rows-accounted-with-padding",
+                "res.is_ok() ==> final(bar_count).0 as nat == rh(vl_of(*old(self), old(term)@, old(bar_count).0 as int), old(term)@.w, stop(vl_of(*old(self), old(term)@, old(bar_count).0 as int), old(term)@.w, old(term)@.h, 0)) + pad_of(old(self).lines@, old(self).alignment, old(term)@.w, old(bar_count).0 as int)"),
+               ("C02-C03-content-with-padding",
+                "res.is_ok() && layout_pre(*old(self), old(term)@, old(bar_count).0 as int) && !first_line_hazard(*old(self), old(term)@, old(bar_count).0 as int) ==> forall|p: int| p >= frame_start(old(term)@, old(bar_count).0 as int) ==> cell_ok(#[trigger] (final(term)@.cells)(p), vl_of(*old(self), old(term)@, old(bar_count).0 as int), old(term)@.w, "
+                "frame_start(old(term)@, old(bar_count).0 as int), stop(vl_of(*old(self), old(term)@, old(bar_count).0 as int), old(term)@.w, old(term)@.h, 0), p)"),
+               ("C03-C02-text-stays-above-the-region",
+                "res.is_ok() && layout_pre(*old(self), old(term)@, old(bar_count).0 as int) && !first_line_hazard(*old(self), old(term)@, old(bar_count).0 as int) && text_first(old(self).lines@) && vl_of(*old(self), old(term)@, old(bar_count).0 as int).len() > 0 && stop(vl_of(*old(self), old(term)@, old(bar_count).0 as int), old(term)@.w, old(term)@.h, 0) == vl_of(*old(self), old(term)@, old(bar_count).0 as int).len() ==> "
+                "frame_start(final(term)@, final(bar_count).0 as int) == frame_start(old(term)@, old(bar_count).0 as int) + hts(old(self).lines@, old(term)@.w, tc(old(self).lines@)) * old(term)@.w"),
            ],
            findings=[
                ("C03-frame-in-cursor-moving-mode",
@@ -348,7 +497,7 @@ UNIT = Unit(
         let ghost start = frame_start(t0, n0);
         let ghost lines0 = self.lines@;
         let ghost lp = layout_pre(*self, t0, n0);
-        let ghost good = lp && self.alignment is Top && !first_line_hazard(*self, t0, n0);"""),
+        let ghost good = lp && !first_line_hazard(*self, t0, n0);"""),
                (r"term\.write_str\(\"\\r\"\)\?;", "before", """            proof { reveal_strlit("\\r"); assert("\\r"@ =~= seq!['\\r']); }"""),
                (r"let term_width = term\.width\(\) as usize;", "before", """        let ghost hazard = cr_hazard(*self, t0, n0);
         assert(!hazard ==> term@.lin() >= start) by {
@@ -369,16 +518,56 @@ UNIT = Unit(
         assert(lp ==> start == brow * t0.w) by {
             assert((t0.row + 1) * t0.w == t0.row * t0.w + t0.w) by (nonlinear_arith);
         }"""),
+               (r"let full_height = ", "before", """        proof {
+            lemma_tcount(lines0, 0);
+            lemma_hts_split(lines0, t0.w, tc(lines0), lines0.len() - tc(lines0));
+        }"""),
+               (r"let count = self\.lines\.len\(\) \+ padding\.len\(\);", "before", """        proof { lemma_hts_at_least_len(lines0, t0.w, lines0.len() as int); }"""),
+               (r"let count = self\.lines\.len\(\) \+ padding\.len\(\);", "after", """        let ghost vl0 = vlines(lines0, shift.0 as nat);
+        proof {
+            assert(shift.0 as nat == pad_of(lines0, self.alignment, t0.w, n0));
+            lemma_vlines_ok(lines0, shift.0 as nat);
+            lemma_vlines_hts(lines0, shift.0 as nat, t0.w);
+            if shift.0 == 0 { lemma_vlines_nopad(lines0); }
+            assert(text@ + padding@ + bars@ =~= vl0);
+        }"""),
+               (r"(?m)^\s*Ok\(\(\)\)\s*$", "before", """        proof {
+            if good && text_first(lines0) && vl0.len() > 0 && __n0 == vl0.len() {
+                let t = tc(lines0);
+                let pad = shift.0 as int;
+                let hh = hts(vl0, t0.w, vl0.len() as int);
+                assert forall|i: int| t + pad <= i < vl0.len() implies is_bar(#[trigger] vl0[i]) by { assert(vl0[i] == lines0[i - pad]); }
+                lemma_rh_bars(vl0, t0.w, t + pad, vl0.len() as int);
+                let n1 = bar_count.0 as int;
+                assert(hh - n1 == hts(lines0, t0.w, t));
+                assert(term@.row == brow + hh - 1) by (nonlinear_arith)
+                    requires term@.row * t0.w + term@.col == start + hh * t0.w, start == brow * t0.w, term@.col == t0.w, t0.w >= 1;
+                if n1 >= 1 {
+                    assert((term@.row - (n1 - 1)) * t0.w == start + hts(lines0, t0.w, t) * t0.w) by (nonlinear_arith)
+                        requires term@.row == brow + hh - 1, hh - n1 == hts(lines0, t0.w, t), start == brow * t0.w;
+                }
+            }
+        }"""),
                (r"term\.flush\(\)", "after", """        proof {
-            lemma_stop(lines0, t0.w, t0.h, 0, __n0 as int);
-            lemma_rh_le_hts(lines0, t0.w, __n0 as int);
-            lemma_hts_mono(lines0, t0.w, __n0 as int, lines0.len() as int);
+            lemma_stop(vl0, t0.w, t0.h, 0, __n0 as int);
+            lemma_rh_le_hts(vl0, t0.w, __n0 as int);
+            lemma_hts_mono(vl0, t0.w, __n0 as int, vl0.len() as int);
+            // rows-bounded: the bars painted are at most the rows of the frame, the padding at most the old region
+            lemma_tcount(lines0, 0);
+            if __n0 as int >= tc(lines0) + shift.0 {
+                lemma_rh_le_from(vl0, t0.w, tc(lines0) + shift.0, __n0 as int);
+            } else {
+                assert forall|i: int| 0 <= i < __n0 implies !is_bar(#[trigger] vl0[i]) by {
+                    if i < tc(lines0) { assert(vl0[i] == lines0[i]); } else { assert(vl0[i] == LineType::Empty); }
+                }
+                lemma_rh_text(vl0, t0.w, __n0 as int);
+            }
         }"""),
                (r"let mut real_height = VisualLines::default\(\);", "before", """        proof {
             if good {
                 reveal_with_fuel(owner, 1);
-                assert forall|p: int| p >= start implies cell_ok(#[trigger] (term@.cells)(p), lines0, t0.w, start, 0, p) by {
-                    assert(owner(lines0, t0.w, start, 0, p) == -1);
+                assert forall|p: int| p >= start implies cell_ok(#[trigger] (term@.cells)(p), vl0, t0.w, start, 0, p) by {
+                    assert(owner(vl0, t0.w, start, 0, p) == -1);
                     assert(blankish((term@.cells)(p)));
                 }
             }
@@ -391,31 +580,31 @@ UNIT = Unit(
                     if good {
                         // the cursor moves from the last row of line idx-1 to the first cell of line idx
                         let k = idx as int - 1;
-                        let c = lcols(lines0, k);
-                        let rr = brow + hts(lines0, t0.w, k);
-                        lemma_pos_next(lines0, t0.w, start, k);
-                        assert(pos(lines0, t0.w, start, k) == rr * t0.w) by (nonlinear_arith)
-                            requires pos(lines0, t0.w, start, k) == start + hts(lines0, t0.w, k) * t0.w, start == brow * t0.w, rr == brow + hts(lines0, t0.w, k);
+                        let c = lcols(vl0, k);
+                        let rr = brow + hts(vl0, t0.w, k);
+                        lemma_pos_next(vl0, t0.w, start, k);
+                        assert(pos(vl0, t0.w, start, k) == rr * t0.w) by (nonlinear_arith)
+                            requires pos(vl0, t0.w, start, k) == start + hts(vl0, t0.w, k) * t0.w, start == brow * t0.w, rr == brow + hts(vl0, t0.w, k);
                         assert(term@.row == tb.row + 1 && term@.col == 0 && term@.cells == tb.cells);
                         if c > 0 {
                             lemma_row_after_write(rr, t0.w, c, tb.row, tb.col);
-                            assert(height_of(lines0[k], t0.w) == ceil_div(c, t0.w));
+                            assert(height_of(vl0[k], t0.w) == ceil_div(c, t0.w));
                         } else {
                             assert(tb.row == rr) by (nonlinear_arith) requires tb.row * t0.w + 0 == rr * t0.w, t0.w >= 1;
                             lemma_height_covers(c, t0.w);
                             assert(ceil_div(0, t0.w) == 0) by (nonlinear_arith) requires t0.w >= 1, ceil_div(0, t0.w) == ((0 + t0.w - 1) / (t0.w as int)) as nat;
-                            assert(height_of(lines0[k], t0.w) == 1);
+                            assert(height_of(vl0[k], t0.w) == 1);
                         }
-                        assert(term@.lin() == pos(lines0, t0.w, start, idx as int)) by (nonlinear_arith)
-                            requires term@.lin() == term@.row * t0.w + term@.col, term@.col == 0, term@.row == rr + height_of(lines0[k], t0.w),
-                                     pos(lines0, t0.w, start, idx as int) == rr * t0.w + height_of(lines0[k], t0.w) * t0.w;
+                        assert(term@.lin() == pos(vl0, t0.w, start, idx as int)) by (nonlinear_arith)
+                            requires term@.lin() == term@.row * t0.w + term@.col, term@.col == 0, term@.row == rr + height_of(vl0[k], t0.w),
+                                     pos(vl0, t0.w, start, idx as int) == rr * t0.w + height_of(vl0[k], t0.w) * t0.w;
                     }
                 }
             }
             proof {
                 if good {
-                    if idx == 0 { assert(hts(lines0, t0.w, 0) == 0); assert(0 * (t0.w as int) == 0); }
-                    assert(term@.lin() == pos(lines0, t0.w, start, idx as int));
+                    if idx == 0 { assert(hts(vl0, t0.w, 0) == 0); assert(0 * (t0.w as int) == 0); }
+                    assert(term@.lin() == pos(vl0, t0.w, start, idx as int));
                 }
             }
             let ghost tw = term@;
@@ -424,17 +613,17 @@ UNIT = Unit(
                (r"term\.write_str\(line\.as_ref\(\)\)\?;", "after", """            proof {
                 if good {
                     let i = idx as int;
-                    let pi = pos(lines0, t0.w, start, i);
-                    let c = lcols(lines0, i);
-                    lemma_pos_next(lines0, t0.w, start, i);
+                    let pi = pos(vl0, t0.w, start, i);
+                    let c = lcols(vl0, i);
+                    lemma_pos_next(vl0, t0.w, start, i);
                     reveal_with_fuel(owner, 1);
-                    assert forall|p: int| p >= start implies cell_ok(#[trigger] (term@.cells)(p), lines0, t0.w, start, i + 1, p) by {
+                    assert forall|p: int| p >= start implies cell_ok(#[trigger] (term@.cells)(p), vl0, t0.w, start, i + 1, p) by {
                         if pi <= p < pi + c {
-                            assert(owner(lines0, t0.w, start, i + 1, p) == i);
+                            assert(owner(vl0, t0.w, start, i + 1, p) == i);
                         } else {
-                            assert(owner(lines0, t0.w, start, i + 1, p) == owner(lines0, t0.w, start, i, p));
+                            assert(owner(vl0, t0.w, start, i + 1, p) == owner(vl0, t0.w, start, i, p));
                             assert((term@.cells)(p) == (tw.cells)(p));
-                            assert(cell_ok((tw.cells)(p), lines0, t0.w, start, i, p));
+                            assert(cell_ok((tw.cells)(p), vl0, t0.w, start, i, p));
                         }
                     }
                     // cursor after the text of line idx
@@ -444,57 +633,57 @@ UNIT = Unit(
                         if idx == 0 { assert(n0 == 0 ==> tw.col == t0.col); }
                         assert(tw.col == 0);
                     }
-                    assert(cur_after(term@, lines0, t0.w, start, i));
+                    assert(cur_after(term@, vl0, t0.w, start, i));
                 }
             }"""),
                (r"let last_line_filler = ", "before", """                proof {
                     assert(line_height.0 as int * term_width as int <= 281470681808895int) by (nonlinear_arith)
                         requires line_height.0 as int <= 0x1_0000_0001, term_width as int <= 65535, line_height.0 as int >= 0, term_width as int >= 0;
-                    assert(line_height.0 as nat == height_of(lines0[idx as int], t0.w));
-                    assert(line_height.0 * term_width >= cols(line_str(lines0[idx as int])));
-                    axiom_cols_spaces((line_height.0 * term_width - cols(line_str(lines0[idx as int]))) as nat);
-                    lemma_not_cr((line_height.0 * term_width - cols(line_str(lines0[idx as int]))) as nat);
+                    assert(line_height.0 as nat == height_of(vl0[idx as int], t0.w));
+                    assert(line_height.0 * term_width >= cols(line_str(vl0[idx as int])));
+                    axiom_cols_spaces((line_height.0 * term_width - cols(line_str(vl0[idx as int]))) as nat);
+                    lemma_not_cr((line_height.0 * term_width - cols(line_str(vl0[idx as int]))) as nat);
                 }
                 let ghost tf = term@;"""),
                (r"term\.write_str\(repeat_space\(last_line_filler\)\.as_str\(\)\)\?;", "after", """                proof {
                     if good {
                         let i = idx as int;
-                        let pi = pos(lines0, t0.w, start, i);
-                        let c = lcols(lines0, i);
+                        let pi = pos(vl0, t0.w, start, i);
+                        let c = lcols(vl0, i);
                         let f = (line_height.0 * term_width - c) as nat;
-                        lemma_pos_next(lines0, t0.w, start, i);
+                        lemma_pos_next(vl0, t0.w, start, i);
                         assert(tf.lin() == pi + c);
                         assert(is_spaces(spaces(f)));
-                        assert forall|p: int| p >= start implies cell_ok(#[trigger] (term@.cells)(p), lines0, t0.w, start, i + 1, p) by {
+                        assert forall|p: int| p >= start implies cell_ok(#[trigger] (term@.cells)(p), vl0, t0.w, start, i + 1, p) by {
                             if tf.lin() <= p < tf.lin() + f {
-                                lemma_owner_none(lines0, t0.w, start, i + 1, p);
+                                lemma_owner_none(vl0, t0.w, start, i + 1, p);
                             } else {
                                 assert((term@.cells)(p) == (tf.cells)(p));
                             }
                         }
                         // the cursor rests in the pending-wrap column of the last row of the frame
-                        let rr = brow + hts(lines0, t0.w, i);
-                        let h = height_of(lines0[i], t0.w);
+                        let rr = brow + hts(vl0, t0.w, i);
+                        let h = height_of(vl0[i], t0.w);
                         assert(pi + c + f == (rr + h) * t0.w) by (nonlinear_arith)
-                            requires pi == start + hts(lines0, t0.w, i) * t0.w, start == brow * t0.w, rr == brow + hts(lines0, t0.w, i), c + f == h * t0.w;
+                            requires pi == start + hts(vl0, t0.w, i) * t0.w, start == brow * t0.w, rr == brow + hts(vl0, t0.w, i), c + f == h * t0.w;
                         assert(term@.lin() == pi + c + f && 1 <= term@.col <= t0.w) by {
                             if f > 0 { } else { assert(c > 0); }
                         }
                         assert(term@.col == t0.w) by (nonlinear_arith)
                             requires term@.row * t0.w + term@.col == (rr + h) * t0.w, 1 <= term@.col <= t0.w, t0.w >= 1;
-                        assert(hts(lines0, t0.w, i + 1) == hts(lines0, t0.w, i) + h);
-                        assert(term@.lin() == start + hts(lines0, t0.w, lines0.len() as int) * t0.w) by (nonlinear_arith)
-                            requires term@.lin() == (rr + h) * t0.w, rr == brow + hts(lines0, t0.w, i), start == brow * t0.w,
-                                     hts(lines0, t0.w, lines0.len() as int) == hts(lines0, t0.w, i) + h;
+                        assert(hts(vl0, t0.w, i + 1) == hts(vl0, t0.w, i) + h);
+                        assert(term@.lin() == start + hts(vl0, t0.w, vl0.len() as int) * t0.w) by (nonlinear_arith)
+                            requires term@.lin() == (rr + h) * t0.w, rr == brow + hts(vl0, t0.w, i), start == brow * t0.w,
+                                     hts(vl0, t0.w, vl0.len() as int) == hts(vl0, t0.w, i) + h;
                         // cur_after still describes the cursor relative to line idx? no: it is past the filler; the
                         // loop ends here, the invariant for the next head is the rest clause
                     }
                 }"""),
                (r"let line_height = line\.wrapped_height\(term_width\);", "after", """            proof {
-                lemma_rh_le_hts(lines0, t0.w, idx as int);
-                lemma_hts_mono(lines0, t0.w, idx as int + 1, lines0.len() as int);
-                lemma_height_covers(cols(line_str(lines0[idx as int])), t0.w);
-                assert(cols(line_str(lines0[idx as int])) <= 0xFFFF_FFFF);
+                lemma_rh_le_hts(vl0, t0.w, idx as int);
+                lemma_hts_mono(vl0, t0.w, idx as int + 1, vl0.len() as int);
+                lemma_height_covers(cols(line_str(vl0[idx as int])), t0.w);
+                assert(cols(line_str(vl0[idx as int])) <= 0xFFFF_FFFF);
                 assert(line_height.0 <= 0x1_0000_0001);
             }"""),
            ],
@@ -513,39 +702,31 @@ UNIT = Unit(
                 assert(term@.row * term@.w >= start);
                 assert(term@.row * term@.w == start + i * t0.w && (term@.row + 1) * term@.w == start + (i + 1) * t0.w) by (nonlinear_arith)
                     requires term@.row == t0.row - (n0 - 1) + i, start == (t0.row - (n0 - 1)) * t0.w, term@.w == t0.w;"""},
-               # Bottom-alignment shift loop
-               1: {"invariant": INV_COMMON + INV_FRAME_H + ["lp ==> blank_from(term@, start)"],
-                   "body_start": "                    let ghost tb = term@;",
-                   "body_end": """                    proof {
-                        reveal_strlit(""); assert(""@ =~= Seq::<char>::empty()); axiom_cols_empty(); lemma_not_cr(0);
-                        assert(term@.row == tb.row + 1);
-                        assert((tb.row + 1) * tb.w >= tb.row * tb.w + tb.col) by (nonlinear_arith) requires tb.col <= tb.w;
-                        assert(term@.lin() == (tb.row + 1) * tb.w);
-                    }"""},
                # paint loop
-               2: {"invariant": INV_COMMON + INV_FRAME_H + [
-                       "__n0 <= self.lines.len()", "self.lines@ == lines0", "lines_ok(lines0)", "term_width as nat == t0.w", "t0.w <= 65535",
-                       "real_height.0 as nat == rh(lines0, t0.w, __n0 as int)", "real_height.0 as nat <= t0.h",
-                       "forall|k: int| 0 <= k < __n0 ==> !brk(lines0, t0.w, t0.h, k)",
-                       "hts(lines0, t0.w, lines0.len() as int) <= 0x7FFF_FFFF",
-                       "good == (lp && self.alignment is Top && !first_line_hazard(*self, t0, n0))", "lp == layout_pre(*self, t0, n0)",
+               1: {"invariant": INV_COMMON + INV_FRAME_H + [
+                       "__n0 <= __vl.len()", "self.lines@ == lines0", "lines_ok(vl0)", "__vl@.len() == vl0.len()", "count == vl0.len()",
+                       "forall|i: int| 0 <= i < vl0.len() ==> *(#[trigger] __vl@[i]) == vl0[i]", "n0 == 0 ==> vl0 == lines0", "term_width as nat == t0.w", "t0.w <= 65535",
+                       "real_height.0 as nat == rh(vl0, t0.w, __n0 as int)", "real_height.0 as nat <= t0.h",
+                       "forall|k: int| 0 <= k < __n0 ==> !brk(vl0, t0.w, t0.h, k)",
+                       "hts(vl0, t0.w, vl0.len() as int) <= 0x7FFF_FFFF",
+                       "good == (lp && !first_line_hazard(*self, t0, n0))", "lp == layout_pre(*self, t0, n0)",
                        "good ==> start == brow * t0.w",
-                       "good ==> forall|p: int| p >= start ==> cell_ok(#[trigger] (term@.cells)(p), lines0, t0.w, start, __n0 as int, p)",
+                       "good ==> forall|p: int| p >= start ==> cell_ok(#[trigger] (term@.cells)(p), vl0, t0.w, start, __n0 as int, p)",
                        "good && __n0 == 0 ==> term@.lin() == start && (term@.col == 0 || (n0 == 0 && term@.col == t0.w))",
-                       "good && __n0 > 0 && __n0 < lines0.len() ==> cur_after(term@, lines0, t0.w, start, __n0 - 1)",
+                       "good && __n0 > 0 && __n0 < vl0.len() ==> cur_after(term@, vl0, t0.w, start, __n0 - 1)",
                        "good && __n0 == 0 && n0 == 0 ==> term@.col == t0.col",
-                       "good && __n0 > 0 && __n0 == lines0.len() ==> term@.col == t0.w && term@.lin() == start + hts(lines0, t0.w, lines0.len() as int) * t0.w"],
+                       "good && __n0 > 0 && __n0 == vl0.len() ==> term@.col == t0.w && term@.lin() == start + hts(vl0, t0.w, vl0.len() as int) * t0.w"],
                    "ensures": [
-                       "good ==> forall|p: int| p >= start ==> cell_ok(#[trigger] (term@.cells)(p), lines0, t0.w, start, __n0 as int, p)",
-                       "good && __n0 > 0 && __n0 == lines0.len() ==> term@.col == t0.w && term@.lin() == start + hts(lines0, t0.w, lines0.len() as int) * t0.w",
-                       "good && lines0.len() == 0 ==> term@.lin() == start",
-                       "__n0 <= self.lines.len()", "self.lines@ == lines0",
-                       "__n0 == lines0.len() || brk(lines0, t0.w, t0.h, __n0 as int)",
+                       "good ==> forall|p: int| p >= start ==> cell_ok(#[trigger] (term@.cells)(p), vl0, t0.w, start, __n0 as int, p)",
+                       "good && __n0 > 0 && __n0 == vl0.len() ==> term@.col == t0.w && term@.lin() == start + hts(vl0, t0.w, vl0.len() as int) * t0.w",
+                       "good && vl0.len() == 0 ==> term@.lin() == start",
+                       "__n0 <= __vl.len()", "self.lines@ == lines0", "__vl@.len() == vl0.len()",
+                       "__n0 == vl0.len() || brk(vl0, t0.w, t0.h, __n0 as int)",
                        "term@.wf()", "term@.same_geom(t0)", "term@.flushed == t0.flushed", "term@.errs == t0.errs",
                        "!hazard ==> forall|p: int| p < start ==> (#[trigger] (term@.cells)(p)) == (t0.cells)(p)",
-                       "real_height.0 as nat == rh(lines0, t0.w, __n0 as int)", "real_height.0 as nat <= t0.h",
-                       "forall|k: int| 0 <= k < __n0 ==> !brk(lines0, t0.w, t0.h, k)"],
-                   "decreases": "self.lines.len() - __n0"},
+                       "real_height.0 as nat == rh(vl0, t0.w, __n0 as int)", "real_height.0 as nat <= t0.h",
+                       "forall|k: int| 0 <= k < __n0 ==> !brk(vl0, t0.w, t0.h, k)"],
+                   "decreases": "__vl.len() - __n0"},
            }),
     ],
 )
